@@ -1174,7 +1174,13 @@ where
 			if tip.0 >= e {
 				wallet_lock!(wallet_inst, w);
 				let parent_key_id = w.parent_key_id();
-				tx::cancel_tx(&mut **w, keychain_mask, &parent_key_id, Some(tx.id), None)?;
+				match tx::cancel_tx(&mut **w, keychain_mask, &parent_key_id, Some(tx.id), None) {
+					// the list was read before steps 2 and 3: an entry they have confirmed (by
+					// its kernel) or cancelled (scan) has nothing left to expire, and must not
+					// keep the other expired transactions from being cancelled
+					Err(Error::TransactionNotCancellable(_)) => continue,
+					r => r?,
+				}
 			}
 		}
 	}
